@@ -32,6 +32,6 @@ def initTimeGlobalWrites : List (String × String) := [
   ("github.com/koykov/inspector.init", "inspector.reVnd"),
   ("github.com/koykov/inspector.tmpIdx", "inspector.tmpCntr"),
   ("github.com/koykov/inspector/testobj_ins.init", "testobj_ins.init$guard")]
-def runtimeEntryPoints : Nat := 14728
-def functionsReachable : Nat := 14777
+def runtimeEntryPoints : Nat := 15680
+def functionsReachable : Nat := 15733
 end Inspector
